@@ -1,12 +1,13 @@
 #!/bin/bash
 # tools/sweep.sh [tier] [seed...] : every check on the current /repo tree; prints one line per (check, seed).
 export GOFLAGS=-mod=mod GOPROXY=off GOSUMDB=off GOTOOLCHAIN=local
+D=$(cd "$(dirname "$0")/.." && pwd)
 TIER=${1:-quick}; shift
 SEEDS=${@:-1}
 mkdir -p /root/scratch
 for s in $SEEDS; do
   for i in 01 02 03 04 05 06 07 08 09 10 11 12 13 14 15 16 17 18 19 20; do
-    VERIF_SEED=$s /verif/check C$i --tier $TIER > /root/scratch/sweep_C$i.log 2>&1; rc=$?
+    VERIF_SEED=$s $D/check C$i --tier $TIER > /root/scratch/sweep_C$i.log 2>&1; rc=$?
     echo "C$i seed=$s exit=$rc violations=$(grep -c '^VIOLATION' /root/scratch/sweep_C$i.log) $(grep '^check C' /root/scratch/sweep_C$i.log | sed 's/.*obligations/obligations/')"
   done
 done
